@@ -58,6 +58,41 @@ fn clone_counts<const N: usize>() {
     }
 }
 
+// zero-sized element types whose Clone and Drop are nevertheless observable (tokens, permits): every stored element is
+// cloned exactly once by clone(), and clone + original together are destroyed exactly once each
+thread_local! { static ZLIVE: Cell<i64> = const { Cell::new(0) }; static ZCLONES: Cell<u64> = const { Cell::new(0) }; }
+#[derive(Debug, PartialEq)]
+struct Permit;
+impl Permit { fn new() -> Permit { ZLIVE.with(|c| c.set(c.get() + 1)); Permit } }
+impl Clone for Permit { fn clone(&self) -> Permit { ZCLONES.with(|c| c.set(c.get() + 1)); Permit::new() } }
+impl Drop for Permit { fn drop(&mut self) { ZLIVE.with(|c| c.set(c.get() - 1)); } }
+fn zst_clone_counts() {
+    for fill in 0..=3u8 {
+        ZLIVE.with(|c| c.set(0));
+        {
+            let mut m: Map<u8, Permit, 3> = Map::new();
+            for i in 0..fill { m.insert(i, Permit::new()); }
+            ZCLONES.with(|c| c.set(0));
+            let c = m.clone();
+            let (cl, live) = (ZCLONES.with(|c| c.get()), ZLIVE.with(|c| c.get()));
+            if cl != fill as u64 || live != 2 * fill as i64 { fault(format!("op=shapes CLONE_COUNT Map<u8, zero-sized V with Clone + Drop, 3>::clone of {} entries called V::clone {} times; {} values alive afterwards (expected {})", fill, cl, live, 2 * fill)); }
+            drop(c);
+            if ZLIVE.with(|c| c.get()) != fill as i64 { fault(format!("op=shapes CLONE_COUNT dropping the clone of a Map<u8, zero-sized V, 3> with {} entries leaves {} values alive (the original still holds {})", fill, ZLIVE.with(|c| c.get()), fill)); }
+            let mut k: Map<Permit, u8, 1> = Map::new();
+            if fill > 0 { k.insert(Permit::new(), 1); }
+            let before = ZLIVE.with(|c| c.get());
+            let kc = k.clone();
+            if ZLIVE.with(|c| c.get()) != before + k.len() as i64 || kc.len() != k.len() { fault("op=shapes CLONE_COUNT Map<zero-sized K with Clone + Drop, u8, 1>::clone did not clone the key exactly once".into()); }
+            let mut s: Set<Permit, 1> = Set::new();
+            if fill > 0 { s.insert(Permit::new()); }
+            let before = ZLIVE.with(|c| c.get());
+            let sc = s.clone();
+            if ZLIVE.with(|c| c.get()) != before + s.len() as i64 || sc.len() != s.len() { fault("op=shapes CLONE_COUNT Set<zero-sized T with Clone + Drop, 1>::clone did not clone the element exactly once".into()); }
+        }
+        if ZLIVE.with(|c| c.get()) != 0 { fault(format!("op=shapes CLONE_COUNT zero-sized elements with Drop: {} alive after every container was dropped", ZLIVE.with(|c| c.get()))); }
+    }
+}
+
 const CANARY: u64 = 0x5afe_5afe_5afe_5afe;
 #[repr(C)]
 struct G<T> { pre: [u64; 4], v: T, post: [u64; 4] }
@@ -277,7 +312,14 @@ fn dict_shape_run<K: El, V: El, const N: usize>(name: &str, universe: &[K], vals
                     let mut e = 0; for _ in &*m { e += 1; }
                     expect(a == want && b == want && c == want && d == want && e == want, format!("iter_mut / &mut map / count / next-loop / &map visit {} {} {} {} {} of {} entries", a, b, c, d, e, want)); }
             15 => { let ks: Vec<K> = m.keys().cloned().collect(); let c: Map<K, V, N> = m.iter().map(|(a, b)| (a.clone(), b.clone())).collect();
-                   expect(ks.len() == r.len() && c == *m, "collect of the map's own entries differs from it".to_string()); }
+                   expect(ks.len() == r.len() && c == *m, "collect of the map's own entries differs from it".to_string());
+                   // From<[(K, V); N]> = inserting the N pairs one by one (repeats included)
+                   let off = rng.below(universe.len()); let span = 1 + rng.below(universe.len());
+                   let arr: [(K, V); N] = core::array::from_fn(|i| (universe[(off + i % span) % universe.len()].clone(), vals[i % vals.len()].clone()));
+                   let mut one: Map<K, V, N> = Map::new(); let mut fits = true;
+                   for (a, b) in arr.iter() { if one.len() == N && !one.contains_key(a) { fits = false; break; } one.insert(a.clone(), b.clone()); }
+                   if fits { let bulk = Map::<K, V, N>::from(arr.clone()); let viaiter: Map<K, V, N> = arr.iter().cloned().collect();
+                       expect(bulk == one && bulk.len() == one.len() && viaiter == one && one.iter().all(|(a, b)| bulk.get(a) == Some(b)), format!("Map::from(array) / collect of {:?} differ from inserting one by one: {:?} vs {:?}", arr, bulk, one)); } }
             // fill the container to the brim (high fill levels, hits at high slot indices: block-wise or masked code)
             _ => { let off = rng.below(universe.len()); for j in 0..universe.len() { let u = &universe[(off + j) % universe.len()];
                    if r.len() >= N { break; } if !r.iter().any(|(a, _)| a == u) { r.push((u.clone(), v.clone())); let got = m.insert(u.clone(), v.clone()); expect(got.is_none(), format!("insert({:?}) of a new key returned {:?}", u, got)); } } }
@@ -337,7 +379,13 @@ fn set_shape_run<T: El, const N: usize, const M: usize>(name: &str, universe: &[
             9 => { let items: Vec<T> = (0..rng.below(4)).map(|_| universe[rng.below(universe.len())].clone()).collect();
                    let mut overflow = false; for e in items.iter() { if r.contains(e) { continue; } if r.len() < N { r.push(e.clone()); } else { overflow = true; break; } }
                    let p = catch_unwind(AssertUnwindSafe(|| s.extend(items.clone()))); expect(p.is_err() == overflow, format!("extend({:?}) panicked: {}, the reference overflows: {}", items, p.is_err(), overflow)); }
-            10 => { let c = s.clone(); expect(c == *s, "the clone differs from the original".to_string()); let all: Vec<T> = c.into_iter().collect(); expect(all.len() == r.len() && r.iter().all(|e| all.contains(e)), format!("into_iter of the clone yields {:?}", all)); }
+            10 => { let c = s.clone(); expect(c == *s, "the clone differs from the original".to_string()); let all: Vec<T> = c.into_iter().collect(); expect(all.len() == r.len() && r.iter().all(|e| all.contains(e)), format!("into_iter of the clone yields {:?}", all));
+                    // From<[T; N]> = inserting the N items one by one (repeats included); Extend<T> likewise
+                    let off = rng.below(universe.len()); let span = 1 + rng.below(universe.len());
+                    let arr: [T; N] = core::array::from_fn(|i| universe[(off + i % span) % universe.len()].clone());
+                    let mut one: Set<T, N> = Set::new(); for e in arr.iter() { one.insert(e.clone()); }
+                    let bulk = Set::<T, N>::from(arr.clone()); let viaiter: Set<T, N> = arr.iter().cloned().collect(); let mut ext: Set<T, N> = Set::new(); ext.extend(arr.iter().cloned());
+                    expect(bulk == one && bulk.len() == one.len() && viaiter == one && ext == one && ext.len() == one.len() && arr.iter().all(|e| bulk.contains(e)), format!("Set::from(array) / collect / extend of {:?} differ from inserting one by one: {:?} vs {:?}", arr, bulk, one)); }
             12 => { let off = rng.below(universe.len()); for j in 0..universe.len() { let u = &universe[(off + j) % universe.len()];
                     if r.len() >= N { break; } if !r.contains(u) { r.push(u.clone()); expect(s.insert(u.clone()), format!("insert({:?}) of a new element returned false", u)); } } }
             _ => {
@@ -691,6 +739,23 @@ fn borrow_shapes() {
             if sm.get(q).copied() != want || sm.contains_key(q) != want.is_some() || sm.get_key_value(q).map(|(k, _)| k.as_str()) != want.map(|_| q) {
                 fault(format!("op=shapes SHAPE_BORROW Map<String,u32,5>: a needle {:?} aliasing a stored key's buffer is looked up wrongly (get = {:?}, expected {:?})", q, sm.get(q), want)); }
         } }
+        // get_disjoint_mut with pairwise DIFFERENT needles of an unsized borrowed form that start at the SAME address
+        // (a word and its prefixes cut from one buffer): different keys, so no "overlap", and each position = get_mut
+        {
+            let line = String::from("cart");
+            let combos: [[&str; 2]; 4] = [[&line[..3], &line[..]], [&line[..], &line[..3]], [&line[..0], &line[..3]], [&line[..2], &line[..]]];
+            for ks in combos {
+                let want: Vec<Option<u32>> = ks.iter().map(|q| sm.get(*q).copied()).collect();
+                let got = catch_unwind(AssertUnwindSafe(|| { let r = sm.get_disjoint_mut(ks); [r[0].as_deref().copied(), r[1].as_deref().copied()] }));
+                let mut twin = sm.clone();
+                let unchecked = { let r = unsafe { twin.get_disjoint_unchecked_mut(ks) }; [r[0].as_deref().copied(), r[1].as_deref().copied()] };
+                if got.as_ref().ok().map(|g| g.to_vec()) != Some(want.clone()) || unchecked.to_vec() != want {
+                    fault(format!("op=shapes SHAPE_DISJOINT Map<String,u32,5>: get_disjoint_mut({:?}) (different keys sharing a start address) gives {:?}, the unchecked twin {:?}, get_mut per key {:?}", ks, got.ok(), unchecked, want));
+                }
+            }
+            let dup = catch_unwind(AssertUnwindSafe(|| { let _ = sm.get_disjoint_mut([&line[..3], "car"]); }));
+            if dup.is_ok() { fault("op=shapes SHAPE_DISJOINT Map<String,u32,5>: two equal present needles at different addresses were accepted".into()); }
+        }
         let mut ss: Set<Vec<u8>, 3> = Set::new(); ss.insert(vec![1, 2, 3]); ss.insert(vec![9]);
         let first: &Vec<u8> = ss.iter().next().unwrap();
         let (p, _) = (first.as_ptr(), first.len());
@@ -748,6 +813,17 @@ fn identity_shapes() {
         if a.iter().map(|(k, v)| (k.id, k.rev, *v)).collect::<Vec<_>>() != vec![(1, 0, 2), (2, 0, 4)] { fault(format!("op=shapes KEY_IDENTITY Map::from(array) with repeats gives {:?}", a)); }
         let sa: Set<Tag, 4> = Set::from([t(1, 0), t(1, 1), t(2, 0), t(2, 1)]);
         if sa.iter().map(|k| (k.id, k.rev)).collect::<Vec<_>>() != vec![(1, 0), (2, 0)] { fault(format!("op=shapes KEY_IDENTITY Set::from(array) with repeats gives {:?}", sa)); }
+        // Extend by value and by reference (Copy elements) = successive insert: the stored element stays
+        for by_ref in [false, true] {
+            let mut e: Set<Tag, 4> = Set::new(); e.insert(t(1, 0));
+            let batch = [t(1, 1), t(2, 1), t(2, 2), t(3, 1)];
+            if by_ref { e.extend(&batch); } else { e.extend(batch); }
+            let got: Vec<(u8, u8)> = e.iter().map(|k| (k.id, k.rev)).collect();
+            if got != vec![(1, 0), (2, 1), (3, 1)] { fault(format!("op=shapes KEY_IDENTITY Set::extend ({}) over a member / with repeats gives {:?}, successive insert gives [(1, 0), (2, 1), (3, 1)]", if by_ref { "by reference" } else { "by value" }, got)); }
+            let mut z: Set<f64, 2> = Set::new(); z.insert(0.0);
+            if by_ref { z.extend(&[-0.0f64]); } else { z.extend([-0.0f64]); }
+            if z.len() != 1 || !z.iter().next().unwrap().is_sign_positive() { fault("op=shapes KEY_IDENTITY Set<f64>::extend with -0.0 replaced the stored 0.0".into()); }
+        }
         let mut f0: Map<f64, u8, 2> = Map::new(); f0.insert(0.0, 1); f0.insert(-0.0, 2);
         if f0.len() != 1 || !f0.keys().next().unwrap().is_sign_positive() || f0[&0.0] != 2 { fault("op=shapes KEY_IDENTITY Map<f64,_>: inserting -0.0 over 0.0 must keep the stored +0.0 and replace the value".into()); }
     });
@@ -851,7 +927,7 @@ fn provided_methods() {
 }
 
 pub fn run() {
-    clone_counts::<1>(); clone_counts::<3>(); clone_counts::<8>();
+    clone_counts::<1>(); clone_counts::<3>(); clone_counts::<8>(); zst_clone_counts();
     overflow_shape::<u8, (), 0>("u8 -> () (ZST value)", &[], 1, ());
     overflow_shape::<u8, (), 2>("u8 -> () (ZST value)", &[1, 2], 3, ());
     overflow_shape::<(), u64, 1>("() (ZST key) -> u64", &[()], (), 5);
